@@ -87,7 +87,7 @@ def _read_hessian(lit: LineIterator, result: dict[str]) -> NDArray[float]:
     # check that $HESS is not already parsed
     if "athessian" in result:
         raise LoadError(
-            "Cannot parse $HESS twice. Make sure approximate hessian is not being parsed."
+            "Cannot parse $HESS twice. Make sure approximate hessian is not being parsed.", lit
         )
     next(lit)
     natom = len(result["symbols"])
